@@ -247,7 +247,9 @@ def run(ctx):
             return ('known', True)
         return None
     is_open = lambda e: e.kind == 'call' and e.ftext == 'self.sink.open_connection'
-    is_add = lambda e: e.kind == 'call' and e.ftext == 'self.known_connections.add'
+    # "remember the id": any way of putting conn_id into the collection of known connections (set / list / dict)
+    is_add = lambda e: (e.kind == 'call' and e.ftext in ('self.known_connections.add', 'self.known_connections.append', 'self.known_connections.setdefault')) \
+        or (e.kind == 'store' and e.target == 'self.known_connections[conn_id]')
     is_fwd = lambda e: e.kind == 'call' and e.ftext == 'self.sink.message'
     for nm, pred in (('open_connection', is_open), ('known_connections.add', is_add)):
         probs = check_reach(hpaths, pred, m_known, lambda F: not F['known'], universe=['known'])
@@ -269,7 +271,7 @@ def run(ctx):
             ctx.check([norm(a) for a in e.args] == ['conn_id', 'msg'], 'C04.6', 'handle:forward-args', f_handle.loc(e.node),
                       'forwarded under its own connection id, unmodified', 'forwarded as %s' % e.text[:80])
         for i in ad:
-            ctx.check(p.events[i].argtext(0) == 'conn_id', 'C04.6', 'handle:remembers-id', f_handle.loc(p.events[i].node), 'the new id is remembered')
+            ctx.check(p.events[i].kind == 'store' or p.events[i].argtext(0) == 'conn_id', 'C04.6', 'handle:remembers-id', f_handle.loc(p.events[i].node), 'the new id is remembered')
         for i in op:
             e = p.events[i]
             reg = [v for a, v in p.decisions if a.text == "'get_registry' == msg.name"]
@@ -290,7 +292,7 @@ def run(ctx):
         for e in p.events:
             if e.kind == 'call' and e.ftext == 'self.sink.close_connection':
                 ncl += 1
-                ctx.check(bool(re.match(r'^<elem\d+ of self\.known_connections>$', e.argtext(1))) and e.argtext(0) == 'self.last_time', 'C04.6',
+                ctx.check(bool(re.match(r'^<elem\d+ of (?:sorted\(|list\(|tuple\()?self\.known_connections(?:\.keys\(\))?\)?>$|^<elem\d+ of (?:sorted\(|list\()?self\.known_connections\.items\(\)\)?>\[0\]$', e.argtext(1))), 'C04.6',
                           'cleanup:closes-each-known', f_cleanup.loc(e.node), 'cleanup closes every known connection id', 'cleanup calls %s' % e.text[:100])
     ctx.floor('C04.6', ncl, 1, 'close_connection in cleanup')
     for p in paths_of(repo, f_cleanup):
@@ -306,6 +308,7 @@ def run(ctx):
         ctx.check(names == ['parse_all', 'cleanup'], 'C04.6', 'into_sink:parse-then-cleanup', f_into.loc(), 'into_sink parses everything, then closes the connections',
                   'into_sink runs %s' % names)
     check_writers(ctx, 'C04.6', 'backends.libwayland_debug_output.parse.Parser', 'known_connections',
-                  [('Parser.__init__', lambda w: w.fresh), ('Parser.handle_message', lambda w: w.kind == 'mutate' and w.via == 'add')], floor=2)
+                  [('Parser.__init__', lambda w: w.fresh),
+                   ('Parser.handle_message', lambda w: (w.kind == 'mutate' and w.via in ('add', 'append', 'setdefault')) or (w.kind == 'substore' and norm(w.stmt.targets[0]) == 'self.known_connections[conn_id]'))], floor=2)
     return ('effect closure of the ingestion path (no shared mutable state), scenario evaluation of open/close/route, writer '
             'enumeration of the connection tables. Decided: %s. Undecided: %s' % ('; '.join(ctx.decided), '; '.join(ctx.undecided)))
